@@ -14,7 +14,7 @@ CHECKS = {
    technique='CBMC code contracts (DFCC) on mechanically lowered instantiations; full-domain SAT', design='4 C15'),
  'C16': dict(
    text='Every constructor, observer, element accessor and sub-view function of tcb::span<int> and tcb::span<int,4> (incl. the static first<2>/last<2>/subspan<1,2>/subspan<1>) is lowered in '
-        'two configurations (no checking, throwing contract checks) and proved against a contract over the view (ptr,size): results are pointer-identical to ptr+offset inside a fresh parent object '
+        'three configurations (no checking, throwing contract checks, throwing checks requested explicitly under NDEBUG) and proved against a contract over the view (ptr,size): results are pointer-identical to ptr+offset inside a fresh parent object '
         'of exactly size elements, sizes are exact, at() throws exactly for idx>=size(), and in checked mode an exception is raised exactly when the request is out of range, '
         'with offset/count/index ranging over all of size_t (loop-free, complete).',
    note=PROOF_NOTE + 'Parent size is bounded by 65536 elements (verifier object size); element type int; reverse_iterator modelled as a struct holding the base pointer; exception message text dropped.',
@@ -59,7 +59,7 @@ CHECKS = {
    technique='CBMC code contracts (DFCC): exceptional postconditions, frame and pointer obligations on mechanically lowered code', design='4 C02'),
  'C04': dict(
    text='Every operator, comparison, compound assignment, lifted <cmath> function, select and value_or overload of xoptional and xmasked_value that clang instantiates for the generated shape matrix '
-        '(each argument position optional/masked or plain; value and reference closures; int flags for equality) - 314 overloads - is lowered and proved against a GENERATED contract: '
+        '(each argument position optional/masked or plain; value and reference closures; int flags for equality; double operands for the ordering comparisons) - 350 overloads - is lowered and proved against a GENERATED contract: '
         'presence(result) == AND of the operand presences, value == the same operation on the underlying values, a missing result leaves a compound-assignment target untouched, == / != / select / value_or as stated; '
         'integer / % /= %= carry the division-by-zero obligation with no precondition on a missing operand, which proves non-evaluation. Loop-free: complete.',
    note=PROOF_NOTE + 'Operand types int and double; machine * / % and <cmath> functions are uninterpreted functions shared by code and spec; non-evaluation of non-trapping operations is not observable with these types.',
